@@ -2,6 +2,7 @@ package main
 
 import (
 	"bufio"
+	"context"
 	"crypto/sha256"
 	"encoding/hex"
 	"encoding/json"
@@ -59,6 +60,7 @@ type Event struct {
 type ThreadSpec struct {
 	Role   string `json:"role"` // producer consumer closer janitor solo
 	Script string `json:"script"`
+	Ctx    bool   `json:"ctx,omitempty"` // the state has a (never cancelled) context attached
 }
 
 type HistSpec struct {
@@ -93,7 +95,7 @@ type Job struct {
 }
 
 type IsoObs struct {
-	Seq  string   `json:"seq"`
+	Exp  []string `json:"exp"`
 	Conc []string `json:"conc"`
 	H0   string   `json:"h0"`
 	H1   string   `json:"h1"`
@@ -431,6 +433,13 @@ func runHist(spec *HistSpec) Result {
 			}
 			L := lua.NewState(opts)
 			defer L.Close()
+			if th.Ctx {
+				// channel operations of a state with a context go through other code paths
+				// (reflect.Select on ctx.Done()); the context is never cancelled here
+				ctx, cancel := context.WithCancel(context.Background())
+				defer cancel()
+				L.SetContext(ctx)
+			}
 			h.register(L, t)
 			L.Push(L.NewFunctionFromProto(protos[th.Script]))
 			if err := L.PCall(0, 0, nil); err != nil {
@@ -534,9 +543,10 @@ func isoOptions(i int) lua.Options {
 	return lua.Options{}
 }
 
-func runTrace(p *lua.FunctionProto, opts lua.Options) string {
+func runTrace(p *lua.FunctionProto, opts lua.Options, variant int) string {
 	L := lua.NewState(opts)
 	defer L.Close()
+	L.SetGlobal("VARIANT", lua.LNumber(variant))
 	h := sha256.New()
 	L.SetGlobal("emit", L.NewFunction(func(L *lua.LState) int {
 		n := L.GetTop()
@@ -553,7 +563,12 @@ func runTrace(p *lua.FunctionProto, opts lua.Options) string {
 	}))
 	L.Push(L.NewFunctionFromProto(p))
 	if err := L.PCall(0, 0, nil); err != nil {
-		fmt.Fprintf(h, "ERROR %s", err.Error())
+		// message and the stack trace the API hands out (names of call sites come from Proto.DbgCalls)
+		if ae, ok := err.(*lua.ApiError); ok {
+			fmt.Fprintf(h, "ERROR %s\n%s", ae.Object.String(), ae.StackTrace)
+		} else {
+			fmt.Fprintf(h, "ERROR %s", err.Error())
+		}
 	}
 	return hex.EncodeToString(h.Sum(nil))
 }
@@ -567,8 +582,21 @@ func runIso(spec *IsoSpec) Result {
 		return Result{Status: "error", Msg: "program does not compile: " + trunc(err.Error(), 300)}
 	}
 	obs := &IsoObs{H0: protoHash(p)}
-	obs.Seq = runTrace(p, lua.Options{})
+	// what each variant of the program computes alone, on a prototype nobody else uses
+	const nvariants = 3
+	alone := make([]string, nvariants)
+	for v := 0; v < nvariants; v++ {
+		q, err := compileSrc(spec.Src, "shared")
+		if err != nil {
+			return Result{Status: "error", Msg: "program does not compile"}
+		}
+		alone[v] = runTrace(q, lua.Options{}, v+1)
+	}
 	obs.Conc = make([]string, spec.N)
+	obs.Exp = make([]string, spec.N)
+	for i := range obs.Exp {
+		obs.Exp[i] = alone[i%nvariants]
+	}
 	var errs []string
 	var emu sync.Mutex
 	stop := make(chan struct{})
@@ -577,7 +605,7 @@ func runIso(spec *IsoSpec) Result {
 		wg.Add(1)
 		go func(i int) {
 			defer wg.Done()
-			obs.Conc[i] = runTrace(p, isoOptions(i))
+			obs.Conc[i] = runTrace(p, isoOptions(i), 1+i%nvariants)
 		}(i)
 	}
 	for c := 0; c < spec.Churn; c++ {
